@@ -5,6 +5,17 @@ All theorems are about the executable node model `BytomModel.Node` (`Model/Node.
 output is compared line by line with the real `protocol.Chain` + `casper.Casper` +
 `database.Store` on every run of `./check C11` (harness `node`, driver `drv_node`).
 
+Vocabulary of parts 2–4 (defined in Lemmas/NodeChain, Lemmas/NodeReorg):
+  `skel s`            id ↦ (parent, height) of the stored headers of state `s`;
+  `Anc L a b`         `a` is an ancestor of `b` (reflexive) over stored, height-decreasing parent links;
+  `StoreWF L gid`     genesis stored at height 0, every other stored header has its parent stored
+                      one lower;
+  `Up c hc l`         `l` is the ascending parent-linked chain that starts just above block `c`
+                      (height `hc`); `tipId c l` is the id of its last block (`c` if `l = []`);
+  `Univ`              the blocks that exist (id, parent, height) — ids are hashes, so one id never
+                      names two different blocks, and a valid block is one higher than its parent;
+  `WF U s`            the invariant;  `Event`, `run` — histories;  `inMain` — the driver's predicate.
+
 Part 1 (fork choice).  `Tree.bestNode` (the model of `treeNode.bestNode`) against the
 declarative rule: among ALL checkpoints of the tree, take the one whose key
   (height of the nearest justified checkpoint on the path from the root, height, rank of hash)
@@ -12,9 +23,10 @@ is largest in the lexicographic order — "highest justified checkpoint, then gr
 then largest hash".  `Tree.paths` / `jhOf` (Lemmas/NodeTree) are the declarative side.
 -/
 import BytomModel.Lemmas.NodeTree
+import BytomModel.Lemmas.NodeReorg
 
 namespace BytomModel.Props.C11
-open BytomModel.Node BytomModel.Lemmas.NodeTree
+open BytomModel.Node BytomModel.Lemmas.NodeTree BytomModel.Lemmas.NodeChain
 
 /-! ### Part 1: the recursive search is the declarative fork-choice rule -/
 
@@ -90,5 +102,133 @@ def exTree : Tree :=
 example : (exTree.bestNode id 0).1.hash = 2 ∧ (exTree.bestNode id 0).2 = 2 := by decide
 example : exTree.paths.length = 4 := by decide
 example : ∀ a ∈ exTree.flatten, ∀ b ∈ exTree.flatten, id a.hash = id b.hash → a.hash = b.hash := by decide
+
+/-! ### Part 2: `calcReorganizeChain` -/
+
+/-- On well-formed headers, a successful `calcReorg nb ob` returns: `att` = the parent-linked
+    chain (heights going up by one) from just above a stored block `c` to `nb`, `det` = tip
+    first, i.e. reversed it is the chain from just above `c` to `ob`; every listed header is
+    the stored one; no block is in both lists. -/
+theorem calcReorg_spec {s : State} {gid : Nat} (w : StoreWF (skel s) gid) {nb ob : Header}
+    (hn : s.header nb.id = some nb) (ho : s.header ob.id = some ob) {fuel : Nat} {att det : List Header}
+    (h : s.calcReorg fuel nb ob [] [] = some (att, det)) :
+    ∃ c, s.header c.id = some c ∧
+      Up c.id c.height att ∧ tipId c.id att = nb.id ∧
+      Up c.id c.height det.reverse ∧ tipId c.id det.reverse = ob.id ∧
+      Stored s att ∧ Stored s det ∧ (∀ x ∈ att, ∀ y ∈ det, x.id ≠ y.id) :=
+  BytomModel.Lemmas.NodeChain.calcReorg_spec w hn ho h
+
+/-- ascending heights: the k-th attached header is `k + 1` above the fork point (same for the
+    reversed detach list) -/
+theorem calcReorg_heights {s : State} {gid : Nat} (w : StoreWF (skel s) gid) {nb ob : Header}
+    (hn : s.header nb.id = some nb) (ho : s.header ob.id = some ob) {fuel : Nat} {att det : List Header}
+    (h : s.calcReorg fuel nb ob [] [] = some (att, det)) :
+    ∃ hc, att.map (fun x => x.height) = List.range' (hc + 1) att.length ∧
+          det.reverse.map (fun x => x.height) = List.range' (hc + 1) det.length ∧
+          (att ≠ [] → att.getLast? = some nb) ∧ (det ≠ [] → det.head? = some ob) := by
+  obtain ⟨c, _, r1, r2, r3, r4, r5, r6, _⟩ := BytomModel.Lemmas.NodeChain.calcReorg_spec w hn ho h
+  refine ⟨c.height, up_heights att c.id c.height r1, ?_, fun hne => up_last r5 hn r2 hne, fun hne => ?_⟩
+  · have := up_heights det.reverse c.id c.height r3
+    rwa [List.length_reverse] at this
+  · have hst : Stored s det.reverse := fun y hy => r6 y (List.mem_reverse.mp hy)
+    have := up_last hst ho r4 (by simpa using hne)
+    rwa [List.getLast?_reverse] at this
+
+/-- the fork point is the LOWEST common ancestor: it is an ancestor of both blocks, every common
+    ancestor is an ancestor of it; attached blocks are ancestors of `nb` only, detached blocks
+    of `ob` only. -/
+theorem calcReorg_lowest_common_ancestor {s : State} {gid : Nat} (w : StoreWF (skel s) gid) {nb ob : Header}
+    (hn : s.header nb.id = some nb) (ho : s.header ob.id = some ob) {fuel : Nat} {att det : List Header}
+    (h : s.calcReorg fuel nb ob [] [] = some (att, det)) :
+    ∃ c, Anc (skel s) c nb.id ∧ Anc (skel s) c ob.id ∧
+      (∀ a, Anc (skel s) a nb.id → Anc (skel s) a ob.id → Anc (skel s) a c) ∧
+      (∀ x ∈ att, Anc (skel s) x.id nb.id ∧ ¬ Anc (skel s) x.id ob.id) ∧
+      (∀ y ∈ det, Anc (skel s) y.id ob.id ∧ ¬ Anc (skel s) y.id nb.id) :=
+  calcReorg_lca w hn ho h
+
+/-- termination: for two stored blocks of a well-formed store the walk ends within the fuel
+    the model gives it (so the model's `none` only ever means "header missing") -/
+theorem calcReorg_terminates {s : State} {gid : Nat} (w : StoreWF (skel s) gid) {nb ob : Header}
+    (hn : s.header nb.id = some nb) (ho : s.header ob.id = some ob) :
+    ∃ r, s.calcReorg (2 * s.fuel) nb ob [] [] = some r :=
+  BytomModel.Lemmas.NodeChain.calcReorg_terminates w hn ho
+
+/-! ### Part 3: the index invariant over all event sequences -/
+
+theorem wf_init (U : Univ) (cfg : Config) (g : Header) (hg : g.height = 0) (hid : U.gid = g.id)
+    (hm : U.mem g.id g.parent g.height) : WF U (State.init cfg g) :=
+  init_wf U cfg g hg hid hm
+
+/-- `processBlock` keeps the invariant for every block of the universe (a block whose id names
+    one block only and whose height is its parent's + 1) — whatever it answers, including the
+    orphan path, the recursive connection of waiting orphans and reorganisations. -/
+theorem wf_processBlock {U : Univ} {s : State} (w : WF U s) (b : Header) (hb : U.mem b.id b.parent b.height) :
+    WF U (s.processBlock b).1 :=
+  processBlock_wf w b hb
+
+theorem wf_authVerification {U : Univ} {s : State} (w : WF U s) (order src tgt : Nat) (sigOk : Bool) :
+    WF U (s.authVerification order src tgt sigOk).1 :=
+  authVerification_wf w order src tgt sigOk
+
+theorem wf_restart {U : Univ} {s s' : State} (w : WF U s) (hr : s.restart = some s') : WF U s' :=
+  restart_wf w hr
+
+/-- every reachable state: any list of `def` / `deliver` / `vote` / `restart` events -/
+theorem wf_run {U : Univ} (s : State) (evs : List Event) (w : WF U s) (hin : EventsIn U evs) : WF U (run s evs) :=
+  run_wf evs s w hin
+
+/-- the same from genesis, the universe being the delivered blocks themselves -/
+theorem wf_reachable (cfg : Config) (g : Header) (evs : List Event) (hg : g.height = 0)
+    (hc : Consistent g (delivered evs)) :
+    WF (Univ.ofBlocks g (delivered evs) hc) (run (State.init cfg g) evs) :=
+  run_wf_blocks cfg g evs hg hc
+
+/-- Every height from genesis to the best block maps to the best block's ancestor at that height. -/
+theorem index_consistent {U : Univ} {s : State} (w : WF U s) {bh : Header} (hb : s.header s.best = some bh)
+    (k : Nat) (hk : k ≤ bh.height) :
+    ∃ a ah, alistGet s.index k = some a ∧ s.header a = some ah ∧ ah.height = k ∧ Anc (skel s) a s.best :=
+  w.index_consistent hb k hk
+
+/-- A block is reported as on the main chain exactly when it is an ancestor of the best block
+    (`h` is the block as the caller knows it; its height is the stored one). -/
+theorem inMain_iff {U : Univ} {s : State} (w : WF U s) (h : Header)
+    (hh : ∀ h', s.header h.id = some h' → h'.height = h.height) :
+    inMain s h = true ↔ Anc (skel s) h.id s.best :=
+  w.inMain_iff h hh
+
+/-- both, for every state reachable from genesis -/
+theorem reachable_index_and_inMain (cfg : Config) (g : Header) (evs : List Event) (hg : g.height = 0)
+    (hc : Consistent g (delivered evs)) :
+    let s := run (State.init cfg g) evs
+    (∃ bh, s.header s.best = some bh ∧
+      ∀ k, k ≤ bh.height → ∃ a ah, alistGet s.index k = some a ∧ s.header a = some ah ∧ ah.height = k ∧
+        Anc (skel s) a s.best) ∧
+    (∀ h : Header, (∀ h', s.header h.id = some h' → h'.height = h.height) →
+      (inMain s h = true ↔ Anc (skel s) h.id s.best)) := by
+  intro s
+  have w := run_wf_blocks cfg g evs hg hc
+  refine ⟨?_, fun h hh => w.inMain_iff h hh⟩
+  obtain ⟨p, ht, hbs⟩ := w.bestStored
+  obtain ⟨bh, hbh, _⟩ := skelOf_some hbs
+  exact ⟨bh, hbh, fun k hk => w.index_consistent hbh k hk⟩
+
+/-! ### Part 4: the best pointer follows the fork choice -/
+
+/-- in a state satisfying the invariant, a reorganisation to any stored block succeeds -/
+theorem tryReorganize_succeeds {U : Univ} {s : State} (w : WF U s) {x : Nat} {nb : Header} (hx : s.header x = some nb) :
+    (s.tryReorganize x).2 = true ∧ (s.tryReorganize x).1.best = x :=
+  BytomModel.Lemmas.NodeChain.tryReorganize_succeeds w hx
+
+/-- A block arrival that is not answered with an error leaves the node on the fork choice of
+    its checkpoint tree (= the declarative maximum, by `bestChain_is_forkChoice`). -/
+theorem processBlock_follows_forkChoice (s : State) (b : Header) (hsync : s.best = s.bestChain)
+    (hok : (s.processBlock b).2 ≠ .err) : (s.processBlock b).1.best = (s.processBlock b).1.bestChain :=
+  processBlock_sync s b hsync hok
+
+/-- A verification message answered `ok` leaves the node on the fork choice of the updated tree. -/
+theorem authVerification_follows_forkChoice (s : State) (order src tgt : Nat) (sigOk : Bool)
+    (hsync : s.best = s.bestChain) (hok : (s.authVerification order src tgt sigOk).2 = .ok) :
+    (s.authVerification order src tgt sigOk).1.best = (s.authVerification order src tgt sigOk).1.bestChain :=
+  authVerification_sync s order src tgt sigOk hsync hok
 
 end BytomModel.Props.C11
